@@ -10,6 +10,7 @@ import (
 	"fmt"
 	"sort"
 	"strings"
+	"sync"
 	"unsafe"
 
 	"gorgonia.org/tensor"
@@ -25,6 +26,11 @@ type ownTracer struct {
 	tids    map[*tensor.Dense]int
 	before  map[[2]int]bool
 	enabled bool
+	// every backing array seen in the current program is kept reachable until the program ends: a slice the
+	// library dropped without returning it would otherwise be collected and its address handed out again by a
+	// later make(), and two different slices would share one id (a false "allocates a slice that is already known")
+	keep map[uintptr]unsafe.Pointer
+	mu   sync.Mutex // the hook also runs on the finalizer goroutine (destroyMultIterator)
 }
 
 type poolEv struct {
@@ -35,6 +41,8 @@ type poolEv struct {
 var own = &ownTracer{}
 
 func (o *ownTracer) reset() {
+	o.mu.Lock()
+	defer o.mu.Unlock()
 	o.ids = map[uintptr]int{}
 	o.pooled = map[int]bool{}
 	o.raw = o.raw[:0]
@@ -43,12 +51,26 @@ func (o *ownTracer) reset() {
 	o.nheld = 0
 	o.tids = map[*tensor.Dense]int{}
 	o.before = map[[2]int]bool{}
+	o.keep = map[uintptr]unsafe.Pointer{}
+}
+
+// pin is called while the array at addr is certainly live (inside the pool hook, or while a live tensor refers to it)
+func (o *ownTracer) pin(addr uintptr) {
+	if o.keep == nil || addr == 0 {
+		return
+	}
+	if _, ok := o.keep[addr]; !ok {
+		o.keep[addr] = unsafe.Pointer(addr) //nolint:govet
+	}
 }
 
 func (o *ownTracer) install() {
 	o.enabled = true
 	tensor.VerifPoolHook = func(kind int, addr uintptr, capacity int) {
+		o.mu.Lock()
+		o.pin(addr)
 		o.raw = append(o.raw, poolEv{kind, addr})
+		o.mu.Unlock()
 	}
 }
 
@@ -78,6 +100,9 @@ func (o *ownTracer) refs(p *prog) map[[2]int]bool {
 		addrs, caps := tensor.VerifMetaSlices(t)
 		for i, a := range addrs {
 			if a != 0 && caps[i] > 0 {
+				o.mu.Lock()
+				o.pin(a)
+				o.mu.Unlock()
 				out[[2]int{k, o.id(a)}] = true
 			}
 		}
@@ -113,7 +138,11 @@ func (o *ownTracer) afterStep(p *prog, step int) {
 			delete(cur, r)
 		}
 	}
-	for _, e := range o.raw {
+	o.mu.Lock()
+	raw := append([]poolEv(nil), o.raw...)
+	o.raw = o.raw[:0]
+	o.mu.Unlock()
+	for _, e := range raw {
 		id := o.id(e.addr)
 		if e.kind == 0 {
 			if o.pooled[id] {
@@ -136,7 +165,6 @@ func (o *ownTracer) afterStep(p *prog, step int) {
 			o.pooled[id] = true
 		}
 	}
-	o.raw = o.raw[:0]
 	for _, r := range sortedRefs(after) {
 		if !cur[r] {
 			o.emit(step, fmt.Sprintf("at %d %d", r[0], r[1]))
